@@ -295,7 +295,20 @@ def case(world):
     start = starts[0] if starts else -1
     limit_reads = [i for i, (w, _) in enumerate(reads) if is_timer_limit_read(w)]
     if not limit_reads:
-        raise RuntimeError("clock seam: no Timer limit read found among readers %r" % sorted(set(w for w, _ in reads)))
+        # the reference never looked at its deadline (or does so through a reader this harness does not
+        # recognise).  Positions cannot be enumerated then; what can still be decided: a deadline that
+        # has passed right after the start must stop the solve with TimeLimit.  (A batch in which no
+        # position was enumerated at all fails its reach gate, i.e. is a harness failure, not a pass.)
+        bump("deadline.no_limit_read_in_reference")
+        w2 = copy.deepcopy(world)
+        w2["params"]["time_limit"] = 1e6
+        w2["clock"] = dict(world.get("clock") or {}, expire_at_read=start + 1)
+        S = execute(w2)
+        execs += 1
+        if TR >= 2 and not (S.result is not None and S.status == "TimeLimit"):
+            viol.append(V(ID, "deadline-ignored", "the deadline had passed right after the start, the solve still ended %s after %d trials" % (S.outcome, len(S.trials)), {"j": start + 1}, dict(ctx0, j=start + 1)))
+        sample = small_sample(world, {"reference": {"trials": TR, "outcome": R.outcome, "clock_reads": len(reads)}})
+        return {"violations": viol, "stats": stats, "keys": keys, "executions": execs, "sample": sample, "virtual_seconds": vsec}
     inner = set()
     for t in R.trials:
         for i in limit_reads:
